@@ -60,7 +60,7 @@ Print Assumptions layer_index_meaning.
    of its own - so that on such graphs every edge is ordered by the previous theorem *)
 Theorem dag_components_singleton g cs :
   acyclic g -> closed_graph g -> scc g = Ok cs ->
-  (forall c, In c cs -> exists x, c = [x]) /\ (forall n, In n (gkeys g) -> In [n] cs).
+  (forall c, In c cs -> exists x, c = [x] /\ In x (gkeys g)) /\ (forall n, In n (gkeys g) -> In [n] cs).
 Proof. exact (scc_dag g cs). Qed.
 Print Assumptions dag_components_singleton.
 
@@ -69,6 +69,43 @@ Theorem prepared_graph_wellformed g :
   closed_graph (prepare g) /\ (forall n ss, In (n, ss) (prepare g) -> ~ In n ss).
 Proof. split; [apply prepare_closed | apply prepare_no_self]. Qed.
 Print Assumptions prepared_graph_wellformed.
+
+(* ------------------------------------------------------------------ the build order *)
+
+(* Under the negation of the signature of the open finding D16 (the closure of the top product holds
+   one version per product name), on a closure without cycles, with resolved edges that agree with
+   the declarations: every dependency has a strictly greater depth than the product that needs it.
+   Distrib.createDependencies installs in descending depth (stable), so it never meets an
+   uninstalled dependency.  Stubs (unresolved dependencies) are ordered like everything else. *)
+Theorem build_order_safe w top fuel l :
+  length w < fuel -> wf_world w -> one_version_per_name w top -> acyclic_from w top ->
+  dependent_products fuel w top true = Ok l ->
+  forall x y, In x l -> In y l -> step w (enode x) (enode y) -> edepth x < edepth y.
+Proof. exact (build_order w top fuel l). Qed.
+Print Assumptions build_order_safe.
+
+(* the topological listing is in ascending depth ... *)
+Theorem listing_ascending fuel w top l :
+  dependent_products fuel w top true = Ok l -> Sorted.StronglySorted depth_le l.
+Proof. exact (listing_sorted node_cmp fuel w top l). Qed.
+Print Assumptions listing_ascending.
+
+(* ... hence every product is listed after all the listed products that depend on it *)
+Corollary listed_after_its_users w top fuel l l1 y l2 x :
+  length w < fuel -> wf_world w -> one_version_per_name w top -> acyclic_from w top ->
+  dependent_products fuel w top true = Ok l ->
+  l = l1 ++ y :: l2 -> In x l2 -> ~ step w (enode x) (enode y).
+Proof.
+  intros Hf Hw Ho Ha D El Ix S.
+  assert (Iy : In y l) by (rewrite El; apply in_or_app; right; left; reflexivity).
+  assert (Ix' : In x l) by (rewrite El; apply in_or_app; right; right; exact Ix).
+  pose proof (build_order w top fuel l Hf Hw Ho Ha D x y Ix' Iy S) as Hlt.
+  pose proof (listing_sorted node_cmp fuel w top l D) as Hs. rewrite El in Hs.
+  apply sorted_suffix in Hs. inversion Hs as [|? ? _ Hall]. subst.
+  rewrite Forall_forall in Hall. specialize (Hall x Ix). unfold depth_le in Hall.
+  apply (PeanoNat.Nat.lt_irrefl (edepth x)). eapply PeanoNat.Nat.lt_le_trans; eauto.
+Qed.
+Print Assumptions listed_after_its_users.
 
 (* ------------------------------------------------------------------ cycles are reported *)
 
@@ -159,6 +196,26 @@ Proof.
   - eapply rp_more; [exists [ed "b" None (Some "1") false], (ed "b" None (Some "1") false); repeat split; simpl; auto|].
     apply rp_one. eexists _, (ed "a" (Some "1") (Some "1") true). split; [reflexivity|]. split; [right; left; reflexivity | reflexivity].
   - eexists. split; vm_compute; reflexivity.
+Qed.
+
+(* the hypotheses of build_order_safe are inhabited by a diamond with a shared sub-tree, an optional
+   edge and an unresolved dependency *)
+Definition w_diamond : world :=
+  [ pr "a" "1" [ed "b" None (Some "1") false; ed "c" (Some "2") (Some "2") true];
+    pr "b" "1" [ed "d" None (Some "1") false];
+    pr "c" "2" [ed "d" (Some "1") (Some "1") false; ed "ghost" None None true];
+    pr "d" "1" [ed "e" None (Some "1") false];
+    pr "e" "1" [] ].
+
+Example build_order_hypotheses_inhabited :
+  wf_world w_diamond /\ one_version_per_name w_diamond (nd "a" "1") /\ acyclic_from w_diamond (nd "a" "1") /\
+  dependent_products 6 w_diamond (nd "a" "1") true
+  = Ok [ (nd "b" "1", false, 2); (nd "c" "2", true, 2); (nd "d" "1", false, 3);
+         (nd "e" "1", false, 4); (stub "ghost" None, true, 4) ].
+Proof.
+  assert (H : wf_world w_diamond /\ one_version_per_name w_diamond (nd "a" "1") /\ acyclic_from w_diamond (nd "a" "1")).
+  { eapply (hyps_by_computation 6); [vm_compute; repeat constructor | vm_compute; reflexivity | | |]; vm_compute; reflexivity. }
+  destruct H as [H1 [H2 H3]]. split; [exact H1|]. split; [exact H2|]. split; [exact H3|]. vm_compute. reflexivity.
 Qed.
 
 (* D2 on the pinned tree: a 1 needs c 1 and c 2; pvsort compared two Props objects *)
